@@ -163,6 +163,11 @@ Theorem C18_source_normalisation_is_identity : forall q s,
 Proof. exact path_str_id. Qed.
 Print Assumptions C18_source_normalisation_is_identity.
 
+Theorem C18_source_normalisation_faithful : forall q s,
+  q_backslash_separator q = true -> fp_normalize_ops = [NReplace "\" "/"] -> path_str q s = str_map backslash_to_slash s.
+Proof. exact path_str_faithful. Qed.
+Print Assumptions C18_source_normalisation_faithful.
+
 (* 10. Where the rule set comes from (config file auto-loaded by the Orchestrator, inline --rules merged into it,
        wrapped section / known top-level keys / layout-file fall-back): with the two source quirks off the rule set in
        force is the specified one - inline rules replace the file's, the documented {"allow", "deny"} form is
